@@ -30,7 +30,7 @@ def level_sizes(tables):
     return [len(k) for k in keys]
 
 
-def build_tables(spec, symbols):
+def build_tables(spec, symbols, scale=1.0):
     """Expand the JSON table spec of a case into dictionaries.
 
     spec: list over orders m = 1..n of either
@@ -38,9 +38,16 @@ def build_tables(spec, symbols):
       {"excluded": [index, ...], "a": int, "b": int, "c": int, "inf_mod": int, "keep_mod": int, "keep_lt": int, "count": int or None}
                                                             tuples with (index+b) % keep_mod < keep_lt but the excluded
                                                             ones, values derived from the index
+      {"gen": count, "a": int, "b": int, "c": int, "inf_mod": int, "fan": [symbol position, k] or None}
+                                                            `count` entries at indices (j * a + b) mod base**m,
+                                                            j = 0..count-1 (distinct when a is coprime to the base),
+                                                            values derived from j; "fan" (order 2 only) adds the
+                                                            bigrams (x, w0) for the first k symbols x, so that the
+                                                            reverse-trie node of w0 has k direct descendants
     p8 is an integer number of eighths (<= 0) or None for -inf; b8 an integer number of
     eighths.  ``symbols`` lists the ids a key may use (vocabulary, plus sos when it is not
-    in the vocabulary).  Returns list of dicts keyed by tuples of *ids*.
+    in the vocabulary).  Every finite value is multiplied by ``scale`` (a power of two, so the
+    products stay exact).  Returns list of dicts keyed by tuples of *ids*.
     """
     n = len(spec)
     base = len(symbols)
@@ -52,8 +59,26 @@ def build_tables(spec, symbols):
             for index, p8, b8 in s["entries"]:
                 index %= base ** m
                 key = tuple(symbols[i] for i in index_to_tuple(index, m, base))
-                p = NEG_INF if p8 is None else p8 / 8.0
-                d[key] = p if last else (p, b8 / 8.0)
+                p = NEG_INF if p8 is None else p8 / 8.0 * scale
+                d[key] = p if last else (p, b8 / 8.0 * scale)
+        elif "gen" in s:
+            a, b, c, inf_mod = s["a"], s["b"], s["c"], s.get("inf_mod", 0)
+            total = base ** m
+            for j in range(s["gen"]):
+                index = (j * a + b) % total
+                key = tuple(symbols[i] for i in index_to_tuple(index, m, base))
+                p = -((j * c + a) % 65) / 8.0 * scale
+                if inf_mod and (j + c) % inf_mod == 0:
+                    p = NEG_INF
+                bo = (((j * a + c) % 33) - 16) / 8.0 * scale
+                d[key] = p if last else (p, bo)
+            fan = s.get("fan")
+            if fan and m == 2:
+                w0, k = symbols[fan[0] % base], fan[1]
+                for j, x in enumerate(symbols[:k]):
+                    p = -((j * 5 + c) % 65) / 8.0 * scale
+                    bo = (((j * 3 + a) % 33) - 16) / 8.0 * scale
+                    d[(x, w0)] = p if last else (p, bo)
         else:
             excl = {i % base ** m for i in s["excluded"]}
             a, b, c, inf_mod = s["a"], s["b"], s["c"], s["inf_mod"]
@@ -66,10 +91,10 @@ def build_tables(spec, symbols):
                 if count is not None and (index * a + b) % total >= count:
                     continue
                 key = tuple(symbols[i] for i in index_to_tuple(index, m, base))
-                p = -((index * a + b) % 65) / 8.0
+                p = -((index * a + b) % 65) / 8.0 * scale
                 if inf_mod and (index + c) % inf_mod == 0:
                     p = NEG_INF
-                bo = (((index * c + a) % 33) - 16) / 8.0
+                bo = (((index * c + a) % 33) - 16) / 8.0 * scale
                 d[key] = p if last else (p, bo)
         tables.append(d)
     return tables
